@@ -50,12 +50,16 @@ type c12StageCase struct {
 type fakeProc struct {
 	batches [][]shared.LogEntry
 	matrix  bool
+	out     chan []shared.LogEntry // the channel handed out (kind stagedrain releases a blocked sender through it)
+	done    chan struct{}          // closed when the sender has sent everything and closed `out`
 }
 
 func (f *fakeProc) IsMatrix() bool { return f.matrix }
 func (f *fakeProc) Process(ctx *shared.PlannerContext, in chan []shared.LogEntry) (chan []shared.LogEntry, error) {
 	out := make(chan []shared.LogEntry)
+	f.out, f.done = out, make(chan struct{})
 	go func() {
+		defer close(f.done)
 		defer close(out)
 		for _, b := range f.batches {
 			out <- b
@@ -299,6 +303,50 @@ func c12RunStage(st *c12StageCase, db *fakes.ReaderDB) string {
 			}
 		}
 		return fmt.Sprintf("%s %d", verdict, delivered)
+	case "stagedrain":
+		// fake upstream → the REAL aggregator stage (LRAPlanner over GenericPlanner.WrapProcess) → read its output to the end.
+		// Sizes = entries per upstream batch; BadAt (1-based) = the batch whose last entry is an error entry: the stage stops
+		// there. Does the upstream's sender still finish?
+		var batches [][]shared.LogEntry
+		for bi, n := range st.Sizes {
+			b := make([]shared.LogEntry, 0, n+1)
+			for k := 0; k < n; k++ {
+				b = append(b, shared.LogEntry{Fingerprint: 7, TimestampNS: st.From + int64(k), Labels: map[string]string{"a": "b"}, Message: "m"})
+			}
+			if bi+1 == st.BadAt {
+				b = append(b, shared.LogEntry{Err: fmt.Errorf("scripted upstream error")})
+			}
+			batches = append(batches, b)
+		}
+		up := &fakeProc{batches: batches}
+		agg := internal_planner.AggregatorPlanner{GenericPlanner: internal_planner.GenericPlanner{Main: up}, Duration: time.Duration(st.Dur)}
+		pl := &internal_planner.LRAPlanner{AggregatorPlanner: agg, Func: "count_over_time"}
+		before := c12Census()
+		out, err := pl.Process(ctx, nil)
+		if err != nil {
+			return "refused"
+		}
+		for range out {
+		}
+		_ = before
+		// the stage's output is closed: its goroutine is on its way out. The upstream's sender (a goroutine of the harness,
+		// not in the census) has either finished or is parked in a send nobody will receive. A clock decides: 600 ms
+		// (x the slow factor of a confirmation run)
+		verdict := "final"
+		select {
+		case <-up.done:
+		case <-time.After(c12Slow * 600 * time.Millisecond):
+			verdict = "blocked"
+		}
+		if verdict == "blocked" {
+			// the comparison is made; release the sender so that the child stays clean
+			go func() {
+				for range up.out {
+				}
+			}()
+			<-up.done
+		}
+		return verdict
 	case "scan":
 		var rows [][]driver.Value
 		for _, ev := range st.Events {
@@ -442,6 +490,16 @@ func c12GenAgg(r *h.Rng, kind string) *c12StageCase {
 }
 
 func c12StageOp(st *c12StageCase) string {
+	if st.Kind == "stagedrain" {
+		bs := make([]string, len(st.Sizes))
+		for i := range st.Sizes {
+			bs[i] = c12b01(i+1 == st.BadAt)
+		}
+		if len(bs) == 0 {
+			return "c12sdrain -"
+		}
+		return "c12sdrain " + strings.Join(bs, ",")
+	}
 	switch st.Kind {
 	case "fix":
 		return fmt.Sprintf("c12fix %d %d %d %d %s", st.From, st.To, st.Step, st.Dur, c12EntriesArg(st.Entries))
@@ -773,6 +831,25 @@ func c12Stages(r *h.Result, rng *h.Rng, tier string) error {
 		st.K = h.Pick(fr, []int{0, 1, 2, 3, fr.Intn(total + 1), fr.Intn(total + 1), total + 50})
 		stage("consumer", st)
 	}
+	// stagedrain: the real aggregator stage stops at an error entry of batch BadAt; does the upstream's sender finish?
+	r.Stream("stagedrain: fake upstream (1–6 batches, one of them ending with an error entry) → the real LRAPlanner stage over GenericPlanner.WrapProcess → a consumer that reads to the end; verdict (all goroutines returned | upstream sender blocked for ever) vs the executable schedule over the REGENERATED code of the WrapProcess loop (StageExec.stageRun; stage_schedule_sound)")
+	nd := 40
+	if tier != "quick" {
+		nd = 600
+	}
+	for i := 0; i < nd; i++ {
+		st := &c12StageCase{Kind: "stagedrain", From: c12Base * 1e9, To: (c12Base + 60) * 1e9, Dur: 5e9}
+		for k := 1 + fr.Intn(6); k > 0; k-- {
+			st.Sizes = append(st.Sizes, h.Pick(fr, []int{0, 1, 2, 100}))
+		}
+		if fr.Chance(70) {
+			st.BadAt = 1 + fr.Intn(len(st.Sizes))
+			if fr.Chance(60) && len(st.Sizes) > 1 {
+				st.BadAt = 1 + fr.Intn(len(st.Sizes)-1) // not the last batch: something is still on its way
+			}
+		}
+		stage("stagedrain", st)
+	}
 	for i := 0; i < 2*n; i++ {
 		cs, op := c12GenQR(fr, 0, i%3 == 2)
 		add("status", cs, op)
@@ -781,6 +858,25 @@ func c12Stages(r *h.Result, rng *h.Rng, tier string) error {
 			add("status", cs, op)
 			cs, op = c12GenPromQR(fr)
 			add("status-prom", cs, op)
+		}
+	}
+	// the remaining controllers (c12status.go)
+	r.Stream("status-all: real routers, every other registered read handler (Loki labels / label values / series / tail up to the upgrade, Prometheus labels / label values / series / metadata / instant query, Tempo search / tags v1,v2 / tag values v1,v2 / echo, Pyroscope ProfileTypes / LabelNames / LabelValues / SelectMergeStacktraces / SelectSeries / SelectMergeProfile / Series / GetProfileStats / Settings / render-diff, static answers): HTTP status class vs the step models of ReadSide/Controllers.lean fed with the stdlib parsers' outcomes (ParseInt, Atoi, ParseDuration, RFC3339-or-seconds, form + schema decoding), the real query / selector parsers' verdicts and the database script")
+	sgens := c12StatusGens()
+	per := 12
+	if tier != "quick" {
+		per = 250
+	}
+	if os.Getenv("C12_ONLY") == "status-all" {
+		cases, ops, streams = nil, nil, nil
+		per *= 4
+	}
+	for _, g := range sgens {
+		gr := fr.Fork()
+		for i := 0; i < per; i++ {
+			cs, op := g.gen(gr)
+			cs.Class = "tie"
+			add("status-all", cs, op)
 		}
 	}
 	js, err := c12RunCases(cases, tier, 4)
@@ -794,6 +890,7 @@ func c12Stages(r *h.Result, rng *h.Rng, tier string) error {
 	if err != nil {
 		return err
 	}
+	drainLeakReported := false
 	for i, j := range js {
 		r.Case("tie:"+ops[i], true)
 		r.Count("tie:" + streams[i])
@@ -802,12 +899,12 @@ func c12Stages(r *h.Result, rng *h.Rng, tier string) error {
 			continue // already a violation; there is no answer to compare
 		}
 		mod := model[i]
-		if streams[i] == "status" || streams[i] == "status-prom" {
+		if streams[i] == "status" || streams[i] == "status-prom" || streams[i] == "status-all" {
 			mod = strings.TrimSuffix(mod, "e") // a stream error keeps the 200 already sent
 		}
 		implOf := func(o *c12Outcome) string {
 			impl := o.StageOut
-			if streams[i] == "status" || streams[i] == "status-prom" {
+			if streams[i] == "status" || streams[i] == "status-prom" || streams[i] == "status-all" {
 				impl = fmt.Sprintf("%d", o.Status/100*100)
 			}
 			if streams[i] == "status-prom" && mod == "200" && impl == "500" {
@@ -827,6 +924,17 @@ func c12Stages(r *h.Result, rng *h.Rng, tier string) error {
 		}
 		if impl != mod {
 			r.Disagree(streams[i], ops[i], impl, mod, j.cs)
+		}
+		if streams[i] == "stagedrain" && impl == "blocked" && !drainLeakReported {
+			// the oracle of this stream, independent of the model: the real stage has stopped reading and the sender feeding it
+			// never finishes — a goroutine of the request that does not terminate. Clock-based: only when the case alone, with
+			// 10x the time, shows it again.
+			if j2 := c12ConfirmSlow(j.cs, tier, 10); j2.cr == nil && j2.o != nil && j2.o.StageOut == "blocked" {
+				drainLeakReported = true // one confirmed witness is enough (each confirmation costs seconds)
+				r.Count("outcome:leak")
+				r.Violate("C12/leak/stage-drain", fmt.Sprintf("the in-process stage (LRAPlanner over GenericPlanner.WrapProcess) stops at the error entry of upstream batch %d of %d and never reads its input again: the upstream sender stays blocked in its send for ever (the stage's output was read to the end; confirmed alone with 10x the time)", j.cs.Stage.BadAt, len(j.cs.Stage.Sizes)),
+					map[string]any{"case": j.cs, "how": "vcheck C12 -replay <this file>"})
+			}
 		}
 		if i%97 == 0 {
 			r.Sample(map[string]any{"stream": streams[i], "op": ops[i], "impl": impl, "model": mod})
